@@ -559,10 +559,21 @@ func c16History(c *Ctx, src []byte, k int) {
 	c.Eval()
 }
 
-func c16One(c *Ctx, src []byte) {
+func c16One(c *Ctx, src []byte) { c16OneX(c, src, c.ReplayCase != "") }
+
+// c16OneX: allCtors = judge the file mode through BOTH constructors (NewBytes and New) instead of a random one.
+// Positions reported by Pos() are always judged against the CALLER's buffer src, which must come back unmodified.
+func c16OneX(c *Ctx, src []byte, allCtors bool) {
 	var obs []string
+	orig := append([]byte(nil), src...)
 	for _, lm := range []bool{false, true} {
-		recs, post, p := lexRun(src, lm, c.R.Pct(10))
+		alt := c.R.Pct(10)
+		if allCtors && !lm {
+			recs, post, p := lexRun(src, false, true) // lexer.New(string)
+			oracle(c, src, false, recs, post, p)
+			alt = false
+		}
+		recs, post, p := lexRun(src, lm, alt)
 		oracle(c, src, lm, recs, post, p)
 		m := "F"
 		if lm {
@@ -574,8 +585,30 @@ func c16One(c *Ctx, src []byte) {
 		}
 		obs = append(obs, m+" "+obsOf(recs)+" + "+obsOf(post))
 	}
+	if !bytes.Equal(orig, src) {
+		c.Fail("input-buffer-modified", "LEX "+Hx(orig), fmt.Sprintf("the caller's buffer became %q", src))
+	}
 	c.Count(fmt.Sprintf("len=%s", lenClass(len(src))))
 	c.Case("LEX "+Hx(src), strings.Join(obs, " "))
+}
+
+// c16Long: like c16OneX with all constructors; inputs over 2048 bytes go through the direct oracle only (the extracted
+// model appends to its string buffer in quadratic time), shorter ones are also correspondence cases.
+func c16Long(c *Ctx, src []byte) {
+	if len(src) <= 2048 {
+		c16OneX(c, src, true)
+		return
+	}
+	orig := append([]byte(nil), src...)
+	for _, cfg := range [][2]bool{{false, false}, {false, true}, {true, false}} {
+		recs, post, p := lexRun(src, cfg[0], cfg[1])
+		oracle(c, src, cfg[0], recs, post, p)
+	}
+	if !bytes.Equal(orig, src) {
+		c.Fail("input-buffer-modified", "LEX "+Hx(orig), "the caller's buffer was modified")
+	}
+	c.Count("len=long-oracle-only")
+	c.Eval()
 }
 
 func lenClass(n int) string {
@@ -621,6 +654,8 @@ var corpus = []string{
 func runC16(c *Ctx) {
 	c.Rule = "exhaustive: every byte string of length <= 2 over all 256 byte values and of length <= L (3 quick / 4 thorough) over the " +
 		"29-symbol significant alphabet (incl. \\v \\f), both lexer modes; random longer inputs over a weighted alphabet; byte mutations of /repo/examples/*.gr. " +
+		"long tokens: identifier, integer, float, hex, both string kinds, both comment kinds, unterminated string / comment at every length 2^k-1..2^k+1 (k=4..16) and around 1000/1024/4096/65536, twice per input, both modes (over 2048 bytes: direct oracle only). " +
+		"special first bytes: BOMs, shebang, magic and multi-byte prefixes (whole/truncated) x bodies and all strings of length <= 3/4 over 15 lead bytes, through New, NewBytes and NewLineMode, Pos() judged against the caller's buffer. " +
 		"structured numbers: every combination of prefix (0x 0X 0b 0o), digits/underscores, dot, fraction, exponent marker e E p P, sign, exponent digits and a following non-digit, alone and inside expressions. " +
 		"interning histories: 8 other entry points (repl.EvalString, EvalStringWithOption, eval.NewState, repl.EvalOne, parser.ParseProgram, " +
 		"extensions.Init, repl.Grol, eval.EvalString) run between two lexings and between the NextToken calls of one lexer, tokens compared by pointer. " +
@@ -686,6 +721,67 @@ func runC16(c *Ctx) {
 			c16One(c, []byte("// c"+a+b))
 		}
 		c16One(c, []byte("//"+a+"x"+a+"\ny"))
+	}
+	// long tokens: every value-token kind at lengths around the powers of two and 1000/1024/4096/65536, twice in the
+	// input (identity inside one lexer) and in both modes (identity across lexers); text = span at every length
+	lens := map[int]bool{}
+	for k := 4; k <= 16; k++ {
+		for d := -1; d <= 1; d++ {
+			lens[(1<<k)+d] = true
+		}
+	}
+	for _, l := range []int{1000, 1022, 1026, 1500, 3000, 4000, 4094, 4098, 5000, 10000, 65534, 65538, 70000} {
+		lens[l] = true
+	}
+	var lenList []int
+	for l := range lens {
+		lenList = append(lenList, l)
+	}
+	sort.Ints(lenList)
+	fill := func(n int, pat string) string { return strings.Repeat(pat, n/len(pat)+1)[:n] }
+	for _, n := range lenList {
+		kinds := []string{
+			"i" + fill(n-1, "dent_9"),                       // identifier
+			fill(n, "1234567890"),                            // integer
+			"1." + fill(n-2, "5_0"),                          // float
+			"0x" + fill(n-2, "9aF_"),                         // hex
+			"\"" + fill(n-2, "s \\n\\x41t") + "\"",        // double quoted string with escapes (n = span length, may cut an escape)
+			"\"" + fill(n-2, "plain text ") + "\"",          // double quoted string, literal of n-2 bytes
+			"`" + fill(n-2, "raw\\n ") + "`",                // raw string
+			"//" + fill(n-2, "comment "),                     // line comment
+			"/*" + fill(n-4, "block * / ") + "*/",            // block comment
+		}
+		for _, t := range kinds {
+			c16Long(c, []byte(t+"\n"+t))
+			c16Long(c, []byte("x = "+t+"\n"+t+"\n"))
+		}
+		c16Long(c, []byte("\""+fill(n-1, "unterminated ")))  // ILLEGAL (file mode) / EOL (line mode)
+		c16Long(c, []byte("/*"+fill(n-2, "open * ")))         // unclosed block comment
+	}
+	c.Count(fmt.Sprintf("long-token-lengths=%d", len(lenList)))
+	// special first bytes: byte order marks, shebang, other magic / multi-byte prefixes, whole and truncated, at the very
+	// start of the input (where a constructor could treat them specially) and after a newline; every constructor;
+	// Pos() is accounted against the caller's buffer
+	prefixes := []string{"\xef\xbb\xbf", "\xef\xbb", "\xef", "\xef\xbb\xbf\xef\xbb\xbf", "\xfe\xff", "\xff\xfe", "\xff\xfe\x00\x00", "\x00\x00\xfe\xff",
+		"\x2b\x2f\x76", "#!", "#!/usr/bin/env grol\n", "#!grol", "#", "# c\n", "\x1f\x8b", "\x7fELF", "<?", "%!", "\x1b[0m", "\x00", "\r\n", "\xc2\xa0",
+		"\xe2\x80\x8b", "\xe2\x80\xa8", "\xf0\x9f\x98\x80", "\xc3\xa9", "\ufffd", "\x0c", "\x1a", "\x04"}
+	bodies := []string{"", "x", "x = 1", " 1", "\nx", "\"s\"", "// c\nx", "/* c */", "func", "\xef\xbb\xbfx"}
+	for _, pf := range prefixes {
+		for _, bd := range bodies {
+			c16OneX(c, []byte(pf+bd), true)
+			c16OneX(c, []byte("a\n"+pf+bd), true)
+		}
+	}
+	lead := []byte{0xef, 0xbb, 0xbf, 0xfe, 0xff, '#', '!', 0x00, 0xc2, 0xa0, 0xe2, 0x80, 'x', ' ', '\n'}
+	leadMax := 3
+	if c.Thorough() {
+		leadMax = 4
+	}
+	for n := 1; n <= leadMax; n++ {
+		enumerate(lead, n, func(b []byte) {
+			c16OneX(c, append([]byte(nil), b...), true)
+			c16OneX(c, append(append([]byte(nil), b...), 'x'), true)
+		})
 	}
 	// structured numbers: prefix, digits/underscores, '.', fraction, exponent marker e E p P, sign, exponent digits, then
 	// a non-digit - all combinations (up to ~12 bytes), alone and embedded in expressions
